@@ -58,7 +58,9 @@ METHODS = [("GCodeCore", "to_absolute"), ("GCodeCore", "_transform_move"), ("GCo
            ("GCodeBuilder", "_prepare_rapid"), ("GCodeCore", "move"), ("GCodeCore", "rapid"),
            ("GCodeBuilder", "_validate_absolute_move"), ("GCodeCore", "move_absolute"), ("GCodeCore", "rapid_absolute"),
            ("GCodeBuilder", "move_absolute"), ("GCodeBuilder", "rapid_absolute"),
-           ("GCodeBuilder", "set_axis"), ("GCodeBuilder", "auto_home"), ("GCodeBuilder", "probe")]
+           ("GCodeBuilder", "set_axis"), ("GCodeBuilder", "auto_home"), ("GCodeBuilder", "probe"),
+           ("GCodeCore", "comment"), ("GCodeBuilder", "halt"), ("GCodeBuilder", "wait"), ("GCodeBuilder", "pause"),
+           ("GCodeBuilder", "stop"), ("GCodeBuilder", "emergency_halt"), ("GCodeBuilder", "add_hook"), ("GCodeBuilder", "remove_hook")]
 ALREADY = {"write", "set_distance_mode", "_update_axes", "tool_off", "coolant_off"}    # translated by gen_builder.py (Gen/BuilderSrc.lean)
 TYPES = {"PointLike": "Pt", "Point": "Pt", "ParamsDict": "MP"}
 RET = {"None": None, "Point": "Pt", "Tuple[str, ParamsDict]": "SStmt × MP", "Tuple[Point, Point]": "Pt × Pt"}
@@ -108,6 +110,8 @@ class M(gen_builder.T):
         cur = env["$self"]
         if isinstance(e, ast.Name):
             if e.id in env:
+                if env[e.id] in ("Comment", "Texts"):
+                    return '""', env[e.id]
                 return e.id, env[e.id]
             fail(e, f"unknown name {e.id}")
         if isinstance(e, ast.Constant) and e.value is None:
@@ -116,6 +120,14 @@ class M(gen_builder.T):
             return ("true" if e.value else "false"), "Bool"
         if isinstance(e, ast.Constant) and isinstance(e.value, int):
             return f"({e.value} : Int)", "Int"
+        if isinstance(e, ast.Constant) and isinstance(e.value, str):
+            return '""', "String"                       # message / comment texts are not modelled
+        if isinstance(e, ast.JoinedStr):
+            return '""', "String"
+        if isinstance(e, ast.List) and e.elts and all(isinstance(x, ast.Constant) and isinstance(x.value, str) for x in e.elts):
+            return "[" + ", ".join(f'"{x.value}"' for x in e.elts) + "]", "Keys"
+        if key == "self._hooks":
+            return f"{cur}._hooks", "Hooks"
         if key in ("self._current_axes", "self.position"):
             return f"{cur}._current_axes", "Pt"
         if key in ("self._distance_mode", "self.distance_mode"):
@@ -150,6 +162,32 @@ class M(gen_builder.T):
                 return f"(applyTransformId {t})", "Pt"
             if fs == "len" and len(e.args) == 1 and ast.unparse(e.args[0]) == "self._hooks":
                 return f"({cur}._hooks.length : Int)", "Int"
+            if fs == "len" and len(e.args) == 1 and isinstance(e.args[0], ast.Name) and env.get(e.args[0].id) == "Texts":
+                return "(0 : Int)", "Int"               # the extra values of a comment: texts, not modelled
+            if fs == "self.format.comment" and len(e.args) == 1:
+                t, ty = self.mexpr(e.args[0], env)
+                if ty not in ("String", "Comment"):
+                    fail(e, "format.comment of a " + ty)
+                return "[Part.comment]", "SStmt"
+            if fs == "self._get_user_param" and len(e.args) == 2:
+                self.check_get_user_param()
+                k, kty = self.mexpr(e.args[0], env)
+                p, pty = self.mexpr(e.args[1], env)
+                if (kty, pty) != ("Keys", "VParams"):
+                    fail(e, f"_get_user_param({kty}, {pty})")
+                return f"(userParam {k} {p})", "OV"
+            # { Enum.A: "text", ... }.get(x)
+            if isinstance(f, ast.Attribute) and f.attr == "get" and isinstance(f.value, ast.Dict) and len(e.args) == 1:
+                x, xty = self.mexpr(e.args[0], env)
+                if xty not in self.enums:
+                    fail(e, "dict.get of a " + xty)
+                arms = []
+                for dk, dv in zip(f.value.keys, f.value.values):
+                    kt, kty2 = self.mexpr(dk, env)
+                    if kty2 != xty or not (isinstance(dv, ast.Constant) and isinstance(dv.value, str)):
+                        fail(e, "dict literal")
+                    arms.append(f'| .{kt.split(".")[1]} => some "{dv.value}"')
+                return f"(match {x} with " + " ".join(arms) + " | _ => none)", "OS"
             if isinstance(f, ast.Attribute):
                 obj, oty = None, None
                 try:
@@ -188,6 +226,8 @@ class M(gen_builder.T):
             c, cty = self.mexpr(e.test, env)
             a, aty = self.mexpr(e.body, env)
             b, bty = self.mexpr(e.orelse, env)
+            if cty == "Bool" and {aty, bty} <= {"String", "Comment"}:
+                return '""', "String"
             if cty != "Bool" or aty != bty:
                 fail(e, f"conditional of types {cty}, {aty}, {bty}")
             return f"(if {c} then {a} else {b})", aty
@@ -201,9 +241,15 @@ class M(gen_builder.T):
             if isinstance(op, (ast.Eq, ast.NotEq)) and aty.startswith("Arg:") and bty == aty[4:]:
                 t = f"decide ({a} = Arg.val {b})"
                 return (t if isinstance(op, ast.Eq) else f"(!{t})"), "Bool"
+            if isinstance(op, (ast.Eq, ast.NotEq)) and aty == bty == "Int":
+                t = f"decide ({a} = {b})"
+                return (t if isinstance(op, ast.Eq) else f"(!{t})"), "Bool"
             if isinstance(op, ast.Gt) and aty == "Int" and isinstance(e.comparators[0], ast.Constant):
                 return f"decide ({a} > {int(e.comparators[0].value)})", "Bool"
-            if isinstance(op, (ast.Is, ast.IsNot)) and bty == "None" and aty in ("OV", "OQ"):
+            if isinstance(op, (ast.In, ast.NotIn)) and bty == "Hooks" and aty == "Hook":
+                t = f"decide ({a} ∈ {b})"
+                return (t if isinstance(op, ast.In) else f"(!{t})"), "Bool"
+            if isinstance(op, (ast.Is, ast.IsNot)) and bty == "None" and aty in ("OV", "OQ", "OS"):
                 return (f"{a}.isNone" if isinstance(op, ast.Is) else f"{a}.isSome"), "Bool"
             if isinstance(op, ast.Is) and isinstance(e.comparators[0], ast.Constant) and e.comparators[0].value is True and aty == "Bool":
                 return a, "Bool"
@@ -251,14 +297,19 @@ class M(gen_builder.T):
         i = 0
         for (pn, pty) in params:
             if pn == "kwargs":
-                if len(star) != 1:
+                if len(star) > 1:
                     fail(c, "**kwargs expected")
-                t, ty = self.mexpr(star[0], env)
+                t, ty = self.mexpr(star[0], env) if star else ("[]", "VParams")
             elif i < len(given):
                 t, ty = self.mexpr(given[i], env)
                 i += 1
+                while ty in ("String", "Comment") and pty != "String" and i < len(given):
+                    t, ty = self.mexpr(given[i], env)       # a text argument in front: dropped on both sides
+                    i += 1
             elif pn in kw:
                 t, ty = self.mexpr(kw[pn], env)
+            elif pn in getattr(self, "defaults", {}).get((owner, f.attr), {}):
+                t, ty = self.mexpr(self.defaults[(owner, f.attr)][pn], env)
             else:
                 fail(c, f"argument {pn} of {f.attr} missing")
             if pty == "Params" and ty == "MP":
@@ -296,6 +347,9 @@ class M(gen_builder.T):
             return go(rest)
         if isinstance(st, ast.Expr) and isinstance(st.value, ast.Call) and ast.unparse(st.value.func).startswith("self._logger."):
             return go(rest)
+        if isinstance(st, tuple) and st[0] == "$rebindS":
+            x = st[1]
+            return f"{ind}let {x} : Option String := some {x}\n" + go(rest, dict(env, **{x: "OS"}))
         if isinstance(st, tuple) and st[0] == "$rebind":
             x = st[1]
             return f"{ind}let {x} : Option Val := some {x}\n" + go(rest, dict(env, **{x: "OV"}))
@@ -322,6 +376,11 @@ class M(gen_builder.T):
                 and isinstance(st.test.ops[0], ast.IsNot) and isinstance(st.test.comparators[0], ast.Constant) \
                 and st.test.comparators[0].value is None:
             t, ty = self.mexpr(st.test.left, env)
+            if ty == "OS" and isinstance(st.test.left, ast.Name):
+                x = st.test.left.id
+                return (f"{ind}match {x} with\n{ind}| some {x}_v =>\n{ind}  let {x} : String := {x}_v\n"
+                        + self.mblock(list(st.body) + [("$rebindS", x)] + rest, dict(env, **{x: "String*"}), depth + 1, cls)
+                        + f"{ind}| none =>\n" + self.mblock(rest, env, depth + 1, cls))
             if ty == "OV":
                 if isinstance(st.test.left, ast.Name):
                     x = st.test.left.id
@@ -346,6 +405,24 @@ class M(gen_builder.T):
                 fail(st, "condition of type " + cty)
             return (f"{ind}if {c} then\n" + self.mblock(list(st.body) + rest, env, depth + 1, cls) + f"{ind}else\n"
                     + self.mblock(list(st.orelse) + rest, env, depth + 1, cls))
+        # for key, value in kwargs.items(): if key.upper() in keys and value is not None: self.state._user_bounds.validate(name, value)
+        if isinstance(st, ast.For) and ast.unparse(st.iter).endswith(".items()") and isinstance(st.target, ast.Tuple):
+            d = st.iter.func.value
+            dt, dty = self.mexpr(d, env)
+            kn, vn = [x.id for x in st.target.elts]
+            b0 = st.body[0] if len(st.body) == 1 else None
+            ok = (dty == "VParams" and isinstance(b0, ast.If) and not b0.orelse and len(b0.body) == 1
+                  and ast.unparse(b0.test).replace("'", '"') in (f"{kn}.upper() in keys and {vn} is not None",)
+                  and env.get("keys") == "Keys" and isinstance(b0.body[0], ast.Expr)
+                  and ast.unparse(b0.body[0].value.func) == "self.state._user_bounds.validate" and len(b0.body[0].value.args) == 2
+                  and ast.unparse(b0.body[0].value.args[1]) == vn)
+            if not ok:
+                fail(st, "loop over the keyword parameters")
+            nm, nty = self.mexpr(b0.body[0].value.args[0], env)
+            if nty != "String*":
+                fail(st, "bounds name of type " + nty)
+            return (f"{ind}match validateEach {cur}.state._user_bounds {nm} keys {dt} with\n{ind}| some e => {self.ret_err(env, 'e')}\n{ind}| none =>\n"
+                    + self.mblock(rest, env, depth + 1, cls))
         # the hook loop
         if isinstance(st, ast.For):
             if ast.unparse(st.iter) == "self._hooks" and isinstance(st.target, ast.Name) and len(st.body) == 1 and not st.orelse:
@@ -400,6 +477,13 @@ class M(gen_builder.T):
         if isinstance(st, ast.Expr) and isinstance(st.value, ast.Call):
             c = st.value
             src = ast.unparse(c.func)
+            if src in ("self._hooks.append", "self._hooks.remove") and len(c.args) == 1:
+                t, ty = self.mexpr(c.args[0], env)
+                if ty != "Hook":
+                    fail(st, "hook list of a " + ty)
+                n = self.fresh(env)
+                new = f"{cur}._hooks ++ [{t}]" if src.endswith("append") else f"{cur}._hooks.erase {t}"
+                return f"{ind}let {n} : BSt := {{ {cur} with _hooks := {new} }}\n" + go(rest, dict(env, **{"$self": n}))
             if src == "self.state._user_bounds.validate" and len(c.args) == 2 and isinstance(c.args[0], ast.Constant):
                 t, ty = self.mexpr(c.args[1], env)
                 if ty != "Pt":
@@ -468,6 +552,8 @@ class M(gen_builder.T):
             if not isinstance(tgt, ast.Name):
                 fail(st, f"assignment target {ast.unparse(tgt)}")
             name = tgt.id
+            if ast.unparse(v) == "kwargs.pop('comment', None)" and env.get("kwargs") == "VParams":
+                return go(rest, dict(env, **{name: "Comment"}))          # the comment entry is not part of the model's parameters
             if isinstance(v, ast.Call):
                 fs = ast.unparse(v.func)
                 # x = Enum(x)
@@ -487,11 +573,14 @@ class M(gen_builder.T):
                 if fs == "self._get_statement" and 2 <= len(v.args) <= 3:
                     cls_, mem = self.enum_ref_m(v.args[0], env)
                     a, aty = self.mexpr(v.args[1], env)
+                    if aty == "VParams":
+                        return (f"{ind}match getStatement {cls_} {mem} {a} with\n{ind}| none => {self.ret_err(env, '.valueError')}\n"
+                                f"{ind}| some {name} =>\n" + self.mblock(rest, dict(env, **{name: "SStmt"}), depth + 1, cls))
                     if aty != "MP":
                         fail(st, "_get_statement with a " + aty)
                     return (f"{ind}match getStatementMP {cls_} {mem} {a} with\n{ind}| none => {self.ret_err(env, '.valueError')}\n"
                             f"{ind}| some {name} =>\n" + self.mblock(rest, dict(env, **{name: "SStmt"}), depth + 1, cls))
-                if isinstance(v.func, ast.Attribute) and ast.unparse(v.func.value) in ("self", "super()"):
+                if isinstance(v.func, ast.Attribute) and ast.unparse(v.func.value) in ("self", "super()") and fs != "self._get_user_param":
                     app, ret = self.call(v, env, cls)
                     if ret is None or " × " in ret:
                         fail(st, f"assignment from a call returning {ret}")
@@ -500,7 +589,9 @@ class M(gen_builder.T):
                     return (f"{ind}match {app} with\n{ind}| ({n}, .error e) => {self.ret_err(env2, 'e')}\n{ind}| ({n}, .ok {name}) =>\n"
                             + self.mblock(rest, env2, depth + 1, cls))
             t, ty = self.mexpr(v, env)
-            lty = {"OV": "Option Val", "OQ": "OQ"}.get(ty, ty)
+            if ty in ("String", "Comment"):
+                return go(rest, dict(env, **{name: "Comment"}))              # a text: not modelled
+            lty = {"OV": "Option Val", "OQ": "OQ", "OS": "Option String", "Keys": "List String"}.get(ty, ty)
             if ty == "None":
                 fail(st, "assignment of None")
             return f"{ind}let {name} : {lty} := {t}\n" + go(rest, dict(env, **{name: ty}))
@@ -512,6 +603,15 @@ class M(gen_builder.T):
             fail(e, f"_get_statement of a {ty}")
         self.need_enum(ty)
         return f'"{ty}"', f"({ty}.memberName {t})"
+
+    def check_get_user_param(self):
+        """`_get_user_param` is a primitive (`userParam`); make sure it still is what the primitive stands for"""
+        m = self.methods["_get_user_param"]
+        body = [ast.unparse(b) for b in m.body if not (isinstance(b, ast.Expr) and isinstance(b.value, ast.Constant))]
+        want = ["values = {key.upper(): value for key, value in params.items()}",
+                "return next((values[key] for key in keys if key in values), None)"]
+        if body != want:
+            raise Unsupported("GCodeBuilder._get_user_param is no longer the lookup the primitive `userParam` transcribes: " + repr(body))
 
     def check_process_move_params(self):
         """`_process_move_params` is a primitive (argument handling); make sure it still is what the primitive stands for"""
@@ -526,13 +626,23 @@ class M(gen_builder.T):
     # ------------------------------------------------------------ methods
     def signature(self, cls, name):
         m = self.klass[cls][name]
-        if m.args.vararg:
+        if m.args.vararg and not (cls, name) == ("GCodeCore", "comment"):
             fail(m, f"{name} takes *args")
         params = []
-        for a in m.args.args[1:]:
+        args = m.args.args[1:]
+        defaults = dict(zip([a.arg for a in args][len(args) - len(m.args.defaults):], m.args.defaults))
+        if not hasattr(self, "defaults"):
+            self.defaults = {}
+        self.defaults[(cls, name)] = defaults
+        for a in args:
             if a.arg == "comment":
                 continue
             src = ast.unparse(a.annotation) if a.annotation is not None else None
+            if src == "str":
+                continue                                   # message texts are not modelled
+            if src == "Callable":
+                params.append((a.arg, "Hook"))
+                continue
             if src in TYPES:
                 params.append((a.arg, TYPES[src]))
             elif src is None:
@@ -550,6 +660,11 @@ class M(gen_builder.T):
         m = self.klass[cls][name]
         params, ret = self.signature(cls, name)
         env = {"$self": "self", "$n": [0], "$ret": ret, "comment": "Comment"}
+        for a in m.args.args[1:]:
+            if a.annotation is not None and ast.unparse(a.annotation) == "str":
+                env[a.arg] = "Comment"
+        if m.args.vararg:
+            env[m.args.vararg.arg] = "Texts"
         sig = ""
         for pn, pty in params:
             env[pn] = pty
@@ -560,7 +675,7 @@ class M(gen_builder.T):
         return (f"/-- `{cls}.{name}` (source line {m.lineno}) -/\ndef {cls}.{name} (self : BSt){sig} (h : Rat) : {rty} :=\n{body}")
 
     def lean_ty_m(self, ty):
-        return {"VParams": "VParams", "MP": "MP", "Pt": "Pt"}.get(ty) or self.lean_ty(ty)
+        return {"VParams": "VParams", "MP": "MP", "Pt": "Pt", "Hook": "Hook"}.get(ty) or self.lean_ty(ty)
 
     def render_motion(self):
         # enums the builder translation declares must be known before ours
